@@ -60,6 +60,39 @@ impl<T> VecDeque<T> {
         }
         self.len = 0;
     }
+    pub fn iter(&self) -> Iter<'_, T> {
+        Iter { d: self, at: 0 }
+    }
+    pub fn remove(&mut self, i: usize) -> Option<T> {
+        if i >= self.len {
+            return None;
+        }
+        let v = self.slots[i].take();
+        let mut k = i + 1;
+        while k < MDEQUE_CAP {
+            self.slots[k - 1] = self.slots[k].take();
+            k += 1;
+        }
+        self.len -= 1;
+        v
+    }
+    pub fn retain<F: FnMut(&T) -> bool>(&mut self, mut f: F) {
+        let mut kept = 0usize;
+        let mut k = 0;
+        while k < MDEQUE_CAP {
+            if k < self.len {
+                let v = self.slots[k].take();
+                if let Some(v) = v {
+                    if f(&v) {
+                        self.slots[kept] = Some(v);
+                        kept += 1;
+                    }
+                }
+            }
+            k += 1;
+        }
+        self.len = kept;
+    }
     /// `drain(..)`: the only form the repository uses
     pub fn drain(&mut self, _r: std::ops::RangeFull) -> Drain<T> {
         let d = Drain { slots: std::mem::replace(&mut self.slots, [const { None }; MDEQUE_CAP]), len: self.len, at: 0 };
@@ -102,6 +135,23 @@ impl<T> Iterator for Drain<T> {
             let v = self.slots[self.at].take();
             self.at += 1;
             v
+        } else {
+            None
+        }
+    }
+}
+
+pub struct Iter<'a, T> {
+    d: &'a VecDeque<T>,
+    at: usize,
+}
+impl<'a, T> Iterator for Iter<'a, T> {
+    type Item = &'a T;
+    fn next(&mut self) -> Option<&'a T> {
+        if self.at < self.d.len {
+            let r = self.d.slots[self.at].as_ref();
+            self.at += 1;
+            r
         } else {
             None
         }
